@@ -1,6 +1,63 @@
-(* C05 (placeholder while the proofs are being written) *)
-From RV Require Import Model.Json Spec.TextOf.
-Theorem C05_scalar_text :
-  forall s, text_of (VLit s) = Some s /\ raw_string (VLit s) = Ok s.
-Proof. intros; split; reflexivity. Qed.
-Eval cbv in "ASSUMPTIONS-OF C05_scalar_text"%string. Print Assumptions C05_scalar_text.
+(* C05  Embedded references render as text of the rendered value.  Statements only; proofs in
+   Proofs/JsonFacts.v (text form = specification Spec/TextOf.v), Proofs/InterpFacts.v (what is
+   converted to text is closed, i.e. fully rendered).  The extracted specification text_of is
+   also applied to the implementation's own rendered target on every run. *)
+From RV Require Import Model.Interp Spec.TextOf Proofs.WfFacts Proofs.InterpFacts Proofs.JsonFacts.
+
+(** The text form of a rendered value is the specified one: strings as-is, numbers in decimal,
+    True/False/None, mappings and lists as compact JSON with byte-wise sorted keys in which
+    integers stay integers. *)
+Theorem C05_text_form_is_specification :
+  forall v t, text_of v = Some t -> raw_string v = Ok t.
+Proof. exact raw_string_is_text_of. Qed.
+Eval cbv in "ASSUMPTIONS-OF C05_text_form_is_specification"%string. Print Assumptions C05_text_form_is_specification.
+
+Theorem C05_scalar_texts :
+  (forall s, raw_string (VLit s) = Ok s) /\ raw_string VNull = Ok "None" /\
+  raw_string (VBool true) = Ok "True" /\ raw_string (VBool false) = Ok "False" /\
+  (forall z, raw_string (VNum (NInt z)) = Ok (Z_to_string z)).
+Proof. repeat split. Qed.
+Eval cbv in "ASSUMPTIONS-OF C05_scalar_texts"%string. Print Assumptions C05_scalar_texts.
+
+(** A string mixing text and references renders to the concatenation, in order, of the texts of
+    its pieces: the loop over the pieces distributes over concatenation of piece lists. *)
+Theorem C05_pieces_concatenate :
+  forall resolve ws call st ts1 ts2 s1 s2,
+    slice_loop resolve ws call st ts1 = Ok s1 -> slice_loop resolve ws call st ts2 = Ok s2 ->
+    slice_loop resolve ws call st (ts1 ++ ts2) = Ok (s1 ++ s2)%string.
+Proof.
+  intros resolve ws call st ts1. induction ts1 as [|t ts1 IH]; intros ts2 s1 s2 H1 H2; cbn [app slice_loop] in *.
+  - injection H1 as <-. exact H2.
+  - destruct (resolve t st) as [[v st1]| | |]; cbn [bind] in *; try discriminate.
+    destruct (ws v st1) as [[v' st2]| | |]; cbn [bind] in *; try discriminate.
+    destruct (if is_mapping v' || is_sequence v' then call v' st2 else Ok (v', st2)) as [[v'' st3]| | |]; cbn [bind] in *; try discriminate.
+    destruct (raw_string v'') as [sx| | |]; cbn [bind] in *; try discriminate.
+    destruct (slice_loop resolve ws call st ts1) as [r1| | |] eqn:E; cbn [bind] in *; try discriminate.
+    injection H1 as <-. rewrite (IH ts2 r1 s2 eq_refl H2). cbn [bind]. f_equal.
+    clear. induction sx as [|c sx IHs]; cbn; [reflexivity | now rewrite IHs].
+Qed.
+Eval cbv in "ASSUMPTIONS-OF C05_pieces_concatenate"%string. Print Assumptions C05_pieces_concatenate.
+
+(** a literal piece contributes its text verbatim *)
+Theorem C05_literal_piece :
+  forall f root s st, token_resolve (S f) root (TLit s) st = Ok (VLit s, st) /\ raw_string (VLit s) = Ok s.
+Proof. split; reflexivity. Qed.
+Eval cbv in "ASSUMPTIONS-OF C05_literal_piece"%string. Print Assumptions C05_literal_piece.
+
+(** what a mapping or list piece is converted from is the fully rendered value: the
+    interpolation applied before the text is taken returns closed data (no reference left). *)
+Theorem C05_container_piece_is_rendered_first :
+  forall f root v st v' st', wf (VMap root) -> wf v -> interp f root v st = Ok (v', st') -> closed v'.
+Proof. intros f root v st v' st' Hr Hv H. exact (proj1 (interp_closed f root v st v' st' Hr Hv H)). Qed.
+Eval cbv in "ASSUMPTIONS-OF C05_container_piece_is_rendered_first"%string. Print Assumptions C05_container_piece_is_rendered_first.
+
+(** Non-vacuity: the property's examples evaluated on the model. *)
+Example C05_nonvacuous :
+  let root := [ mk_entry (VStr "m") (VMap [mk_entry (VStr "b") (VNum (NInt 9007199254740993)) false false;
+                                           mk_entry (VStr "a") (VSeq [VStr "${x}"; VBool true; VNull]) false false]) false false;
+                mk_entry (VStr "x") (VStr "q""uote") false false;
+                mk_entry (VStr "s") (VStr "pre ${m} post ${x}") false false ] in
+  exists r, render_with_self 60 (VMap root) = Ok r /\
+    m_get (VStr "s") (match r with VMap m => m | _ => [] end) =
+      Some (VLit "pre {""a"":[""q\""uote"",true,null],""b"":9007199254740993} post q""uote").
+Proof. cbn zeta. eexists. split; vm_compute; reflexivity. Qed.
